@@ -201,7 +201,14 @@ def join_byte_intervals(
             for bi in intervals:
                 if bi.module is not None:
                     aux_data = table_def.get(bi.module)
-                    if aux_data and bi in aux_data:
+                    if aux_data is None:
+                        continue
+                    if bi is intervals[0] and aux_data:
+                        # Entries of the other intervals are merged into the
+                        # first interval's sub-dict, so it has to be the one
+                        # stored in the aux data even if it is empty so far.
+                        table[bi] = aux_data.setdefault(bi, {})
+                    elif bi in aux_data:
                         table[bi] = aux_data[bi]
             if len(table) > 0:
                 tables.append(table)  # type: ignore # per above this is hacky
